@@ -12,11 +12,13 @@ variable {α : Type} [Scalar α] [IsLinearOrder α] [LawfulOrderLT α] [LawfulSc
 
 /-- structure of a successful `getOffsetAndCount(MultiTag …)`: the j-th result is the assembly row of the
     j-th requested index, which is a function of that index alone -/
-theorem mtagOffsetCount_rows (t : MTagIn α) (idx : List Nat) (rs : List (List Nat × List Nat))
+theorem mtagOffsetCount_rows (t : MTagIn α) (idx : List Nat) (hne : idx ≠ []) (rs : List (List Nat × List Nat))
     (h : mtagOffsetCount t idx = .ok rs) :
     ∃ maxExt, t.prepare (idx.foldl max 0) = .ok maxExt ∧ rs.length = idx.length ∧
       ∀ j (hj : j < idx.length) (hr : j < rs.length), t.row maxExt idx[j] = .ok rs[j] := by
   unfold mtagOffsetCount at h
+  have hemp : idx.isEmpty = false := by cases idx <;> simp_all
+  simp only [hemp, Bool.false_eq_true, if_false] at h
   cases hp : t.prepare (idx.foldl max 0) with
   | error x => rw [hp] at h; cases h
   | ok maxExt =>
@@ -62,8 +64,9 @@ theorem prepare_indep (t : MTagIn α) (m m' : Nat) (a b : List (α × α))
 theorem mtag_list_eq_map_single (t : MTagIn α) (idx : List Nat) (rs : List (List Nat × List Nat))
     (h : mtagOffsetCount t idx = .ok rs) (j : Nat) (hj : j < idx.length) (r : List Nat × List Nat)
     (h1 : mtagOffsetCount t [idx[j]] = .ok [r]) : ∃ hr : j < rs.length, rs[j] = r := by
-  obtain ⟨me, hp, hl, hall⟩ := mtagOffsetCount_rows t idx rs h
-  obtain ⟨me1, hp1, _, hall1⟩ := mtagOffsetCount_rows t [idx[j]] [r] h1
+  have hne : idx ≠ [] := by intro he; subst he; simp at hj
+  obtain ⟨me, hp, hl, hall⟩ := mtagOffsetCount_rows t idx hne rs h
+  obtain ⟨me1, hp1, _, hall1⟩ := mtagOffsetCount_rows t [idx[j]] (by simp) [r] h1
   have hr : j < rs.length := by omega
   refine ⟨hr, ?_⟩
   have hme := prepare_indep t _ _ me me1 hp hp1
@@ -79,7 +82,8 @@ theorem mtag_single_of_list (t : MTagIn α) (idx : List Nat) (rs : List (List Na
     (h : mtagOffsetCount t idx = .ok rs) (j : Nat) (hj : j < idx.length) (hr : j < rs.length)
     (hbound : idx[j] < t.positions.length ∧ (match t.extents with | some ex => idx[j] < ex.length | none => True)) :
     mtagOffsetCount t [idx[j]] = .ok [rs[j]] := by
-  obtain ⟨me, hp, hl, hall⟩ := mtagOffsetCount_rows t idx rs h
+  have hne : idx ≠ [] := by intro he; subst he; simp at hj
+  obtain ⟨me, hp, hl, hall⟩ := mtagOffsetCount_rows t idx hne rs h
   have hp1 : t.prepare ([idx[j]].foldl max 0) = .ok me := by
     have hfold : [idx[j]].foldl max 0 = idx[j] := by simp
     rw [hfold]
@@ -91,8 +95,26 @@ theorem mtag_single_of_list (t : MTagIn α) (idx : List Nat) (rs : List (List Na
     | none => simp; omega
     | some ex => simp only [hx] at hb2 ⊢; simp; omega
   unfold mtagOffsetCount
+  simp only [List.isEmpty_cons, Bool.false_eq_true, if_false]
   rw [hp1]
   simp only [mapExcept, hall j hj hr]
+
+/-- **mtag_all_of_none** — "all positions" of a multi-tag that has no positions is no region at all, for references and for
+    features of every link type: no index is ever looked at (the C++ took `*max_element` of the empty list here, D28 / D42) -/
+theorem mtag_all_of_none (t : MTagIn α) (hp : t.positions = []) (me : List (α × α)) (hme : t.maxExt0 = .ok me) :
+    mtagRegions t [] = .ok [] := by
+  simp [mtagRegions, mtagOffsetCount, hp, hme, mapExcept]
+
+theorem mtag_feature_all_of_none (t : MTagIn α) (hp : t.positions = []) (lt : LinkType) (fdims : List (DimDesc α)) (fshape : List Nat)
+    (me : List (α × α)) (hme : ({ t with dims := fdims, shape := fshape } : MTagIn α).maxExt0 = .ok me) :
+    mtagFeatureRegions t [] lt fdims fshape = .ok [] := by
+  cases lt with
+  | tagged =>
+    simp only [mtagFeatureRegions, hp, List.length_nil, List.range_zero, List.isEmpty_nil, if_true]
+    refine mtag_all_of_none _ rfl me ?_
+    simpa [hp] using hme
+  | untagged => simp [mtagFeatureRegions, hp]
+  | indexed => simp [mtagFeatureRegions, hp]
 
 /-- **mtag_index_oob** — an index beyond the number of positions raises OutOfBounds (once the descriptors
     themselves can be read) -/
